@@ -1,6 +1,8 @@
 package rules
 
 import (
+	"fmt"
+	"go/types"
 	"golang.org/x/tools/go/ssa"
 
 	"vouchcheck/internal/core"
@@ -203,4 +205,111 @@ func effectSites(fn *ssa.Function, pred func(ssa.Instruction) bool, depth int) [
 		}
 	})
 	return out
+}
+
+// checkTestAndSetAtomic: in fn, a presence test (comma-ok lookup) on the map held in field and an insert into that
+// map are one critical section: on no path from the test to the insert is a lock of the owner released. Returns the
+// number of test/insert pairs examined.
+func checkTestAndSetAtomic(p *core.Prog, r *core.Report, la *core.LockAnalysis, rule string, fn *ssa.Function, field core.FieldID, what string) int {
+	var tests []*ssa.Lookup
+	var inserts []*ssa.MapUpdate
+	core.EachInstr(fn, func(in ssa.Instruction) {
+		switch x := in.(type) {
+		case *ssa.Lookup:
+			if id, ok := core.FieldOfValue(x.X); ok && id == field && x.CommaOk {
+				tests = append(tests, x)
+			}
+		case *ssa.MapUpdate:
+			if id, ok := core.FieldOfValue(x.Map); ok && id == field {
+				inserts = append(inserts, x)
+			}
+		}
+	})
+	n := 0
+	for i, ins := range inserts {
+		for _, t := range tests {
+			if !reachableAfter(t, ins) {
+				continue
+			}
+			n++
+			var wit []string
+			bad := false
+			core.EachInstr(fn, func(in ssa.Instruction) {
+				ci, ok := in.(ssa.CallInstruction)
+				if !ok || bad {
+					return
+				}
+				op, ok := core.LockOpOf(ci)
+				if !ok || op.Acquire || op.Lock.Field.Owner != field.Owner {
+					return
+				}
+				if _, isDefer := in.(*ssa.Defer); isDefer {
+					return
+				}
+				isT := func(x ssa.Instruction) bool { return x == ssa.Instruction(t) }
+				w1 := core.PathQuery{Fn: fn, From: t, Target: func(x ssa.Instruction) bool { return x == in }, Avoid: isT}.Find()
+				w2 := core.PathQuery{Fn: fn, From: in, Target: func(x ssa.Instruction) bool { return x == ssa.Instruction(ins) }, Avoid: isT}.Find()
+				if w1 != nil && w2 != nil {
+					bad = true
+					wit = append(p.WitnessText(w1), p.WitnessText(w2)...)
+				}
+			})
+			r.Check(!bad, rule, fmt.Sprintf("%s|insert#%d|test-and-insert-atomic", core.FnKey(fn), i+1), p.Pos(ins.Pos()),
+				"the presence test and the insert are one critical section", what, wit...)
+		}
+	}
+	return n
+}
+
+// checkNestedInitOnlyWhenAbsent: a fresh inner collection is stored into a map held in a struct field
+// (outer[k] = make(...) / = map[...]...{...}) only on the edge on which outer[k] was found absent. Replacing an
+// existing inner collection drops what earlier calls accumulated in it. Returns the number of such stores.
+func checkNestedInitOnlyWhenAbsent(p *core.Prog, r *core.Report, ds *core.Describer, rule string, fns []*ssa.Function, consequence string) int {
+	n := 0
+	for _, f := range fns {
+		core.EachInstr(f, func(in ssa.Instruction) {
+			mu, ok := in.(*ssa.MapUpdate)
+			if !ok {
+				return
+			}
+			fid, ok := core.FieldOfValue(mu.Map)
+			if !ok {
+				return
+			}
+			switch mu.Value.Type().Underlying().(type) {
+			case *types.Map:
+			default:
+				return
+			}
+			if _, fresh := mu.Value.(*ssa.MakeMap); !fresh {
+				return
+			}
+			n++
+			keyS := ds.D(mu.Key).String()
+			absent := func(c core.Cond) int {
+				if c.B == nil {
+					return -1
+				}
+				ex, ok := c.B.Val.(*ssa.Extract)
+				if !ok || ex.Index != 1 {
+					return -1
+				}
+				lk, ok := ex.Tuple.(*ssa.Lookup)
+				if !ok {
+					return -1
+				}
+				if id, ok := core.FieldOfValue(lk.X); !ok || id != fid || ds.D(lk.Index).String() != keyS {
+					return -1
+				}
+				if c.BoolOnEdge(0) {
+					return 1 // present on the true edge: absent on the false edge
+				}
+				return 0
+			}
+			w := core.Unguarded(ds, f, nil, func(x ssa.Instruction) bool { return x == in }, absent)
+			r.Check(w == nil, rule, fmt.Sprintf("%s|%s|inner-created-only-when-absent", core.FnKey(f), fid.Name), p.Pos(mu.Pos()),
+				"the inner collection is created only when "+fid.Name+"[key] is absent", "a fresh inner collection is stored into "+fid.String()+"[key] although one may already exist: "+consequence, p.WitnessText(w)...)
+		})
+	}
+	return n
 }
